@@ -314,6 +314,17 @@ theorem api_tree_value_num (d : Dialect) (g : Grammar) (hg : coreCompat g = true
     rw [h1, evalG_render env d e hcw.1]
     exact build_num_eval env u e hu hb
 
+/-- the same statement about `emit` (= `render ∘ lower`, the compiler's full pipeline including
+    the compile-time rewriting of the LIKE-based string operators, which is the identity on
+    the fragment) -/
+theorem api_tree_value_bool_emit (d : Dialect) (g : Grammar) (hg : coreCompat g = true)
+    (hpt : prefixNoTern g) (env : String → Val) (u : U) (e : SaExpr)
+    (hu : BoolU u = true) (hn : noIsGen u = true) (hb : build u = some e) :
+    (parse g (emit d e).print).map (fun t => truth (evalG (stdI env) t).scalar)
+      = some (evalBoolU env u) := by
+  rw [emit_core d e (build_core_WG u e (Or.inr hu) hb).1]
+  exact api_tree_value_bool d g hg hpt env u e hu hn hb
+
 theorem api_tree_value_bool_sqlite (env : String → Val) (u : U) (e : SaExpr)
     (hu : BoolU u = true) (hn : noIsGen u = true) (hb : build u = some e) :
     (parse sqlite (render .sqlite true e).print).map (fun t => truth (evalG (stdI env) t).scalar)
@@ -351,6 +362,32 @@ example :
      | some e => Core e && WG e
      | none => false) = true := by
   decide +kernel
+
+/-! ### the remaining constructs, every child operator in every operand position -/
+
+def childOf (c : Op) : SaExpr := mkBinary colA colB c .int none none
+
+/-- CASE (condition / result / value position), CAST, a function call, BETWEEN (left operand),
+    LIKE … ESCAPE (both operands), the compile-time rewritten `contains` / `istartswith`,
+    IN / NOT IN (incl. the empty-list form), unary minus and NOT — each around `x` -/
+def formsAround (x : SaExpr) : List SaExpr :=
+  [mkCase .absent [x, colC] colA, mkCase .absent [colB, x] x, mkCase x [x, colC] .absent,
+   .cast x .int, mkFunc "coalesce" [x, colC, x], betweenImpl x colA colC,
+   mkBinary x colC .like_op .bool (some .not_like_op) (some "/"),
+   mkBinary colC x .like_op .bool (some .not_like_op) (some "/"),
+   mkBinary x colC .contains_op .bool (some .not_contains_op) none,
+   mkBinary colC x .contains_op .bool (some .not_contains_op) none,
+   mkBinary colC x .istartswith_op .bool (some .not_istartswith_op) (some "/"),
+   mkBinary x (.inlist [.int 1, .null] .int .in_op) .in_op .bool (some .not_in_op) none,
+   mkBinary x (.inlist [] .int .not_in_op) .not_in_op .bool (some .in_op) none,
+   negImpl x, negate x]
+
+def formsOK (d : Dialect) (g : Grammar) : Bool :=
+  binOps.all fun c => (formsAround (childOf c)).all fun e => wb g (emit d e).norm
+
+theorem forms_sqlite : formsOK .sqlite sqlite = true := by decide +kernel
+theorem forms_postgresql : formsOK .postgresql postgresql = true := by decide +kernel
+theorem forms_mysql : formsOK .mysql mysql = true := by decide +kernel
 
 /-- the model's rendering of finding F1's tree and its reading by the SQLite table -/
 def f1Tree : U := .bin .concat (.bin .add (.li 1) (.li 2)) (.ls "3")
